@@ -28,6 +28,15 @@ CRAFTED = [
 ]
 
 
+# what may follow the digits of a `ref` value / a key-value / a target before the separator: unterminated and odd constructs
+_JUNK = ["/*", "/* x", "/* x *", "//", "// x\n", "\"", "'", "(", "{", "\\", "/", "*", "/*/", "*/", "/**", "/* */ /*", "/*\n", "\u0085/*", "#", "!", ".", "..", "e9", "_", "u32", "é", "\u200e", "\x00"]
+for _j in _JUNK:
+    for _tmpl in ('info!(ref = 12 %s; "worker starting");\n', 'info!(ref = 12 %s\n; "m");\nwarn!("next");\n', 'info!(a = 1 %s, ref = 3; "m");\n',
+                  'info!(target: "t" %s, "m");\n', 'info!(ref = %s; "m");\n', 'info!(ref = 7, a %s; "m");\n', '// breadlog:no-kvp\ninfo!(ref = 1 %s; "[ref: 2] m");\n',
+                  'info!("[ref: 12%s] m");\n', 'info!(%s"m");\n'):
+        CRAFTED.append((_tmpl % _j).encode("utf-8"))
+
+
 def shape(data):
     out = []
     for ch in data.decode("utf-8", "replace")[:60]:
@@ -112,7 +121,9 @@ def work(job):
     res = {"evaluations": 0, "nontrivial": [], "violations": [], "samples": [], "inconclusive": {}, "counters": {}}
     structured = rnd.random() < 0.4
     files = {}
-    if kind == "crafted":
+    if kind.startswith("crafted"):
+        structured = kind.endswith("structured")
+        kind = "crafted"
         for i, d in enumerate(payload):
             files["src/c%03d.rs" % i] = d
     elif kind == "corpusmut":
@@ -257,6 +268,7 @@ def main(tier):
     jobs = []
     for i in range(0, len(CRAFTED), BATCH):
         jobs.append((built, ck.seed, i, "crafted", CRAFTED[i:i + BATCH], calib))
+        jobs.append((built, ck.seed, i, "crafted-structured", CRAFTED[i:i + BATCH], calib))
     shards, reg = trees.corpus_shards(rnd, 16, registry_n=0 if quick else 2500)
     for rep in range(2 if quick else 12):
         for i, sh in enumerate(shards):
